@@ -145,6 +145,44 @@ fn make_event(m: &sim::Model, inv: &crate::maps::Inv, rng: &mut Rng, kind: u64, 
             banks.push((name, twin.encode()));
             "PWB chunk present twice with different content"
         }
+        12 => {
+            // a bank named for another channel of the same board, carrying a packet of an existing channel with other samples
+            let w = *wires.keys().next().unwrap();
+            let mut s = wires[&w].clone();
+            for x in s.iter_mut().skip(150).take(60) {
+                *x -= 300;
+            }
+            let (name, payload) = event::wire_bank(inv, w, s);
+            let d = name.chars().nth(3).unwrap().to_digit(32).unwrap();
+            let other = std::char::from_digit((d + 7) % 32, 32).unwrap().to_ascii_uppercase();
+            let new_name = format!("{}{}", &name[..3], other);
+            if !banks.iter().any(|b| b.0 == new_name) {
+                banks.push((new_name, payload));
+            } else {
+                banks.retain(|b| b.0 != "ATAT");
+            }
+            "wire bank named for another channel of the same board"
+        }
+        13 => {
+            // right number of chunks, but one middle chunk carries its neighbour's id (0,1,1,3,...)
+            let mut done = false;
+            let names: Vec<(String, u8)> = banks.iter().filter(|b| b.0.starts_with("PC")).map(|b| (b.0.clone(), b.1[10])).collect();
+            for (nm, chip) in names {
+                let idxs: Vec<usize> = (0..banks.len()).filter(|k| banks[*k].0 == nm && banks[*k].1[10] == chip).collect();
+                if idxs.len() >= 4 {
+                    let k = idxs.iter().copied().find(|k| u16::from_le_bytes([banks[*k].1[12], banks[*k].1[13]]) == 2).unwrap();
+                    let c = alpha_g_detector::padwing::Chunk::try_from(&banks[k].1[..]).unwrap();
+                    let twin = crate::enc::Chunk { device_id: c.board_id().device_id(), packet_sequence: 3, channel_sequence: 3, channel_id: chip, flags: 0, chunk_id: 1, payload: c.payload().to_vec() };
+                    banks[k].1 = twin.encode();
+                    done = true;
+                    break;
+                }
+            }
+            if !done {
+                banks.retain(|b| b.0 != "ATAT");
+            }
+            "PWB message with a repeated chunk id instead of a missing one"
+        }
         _ => {
             // a wire bank present twice, both long, different content
             let w = *wires.keys().next().unwrap();
@@ -176,7 +214,7 @@ fn run(ctx: &mut Ctx) {
         }
         ctx.cur_case = i;
         let mut rng = ctx.rng_for("events", i);
-        let (banks, what) = make_event(&m, &inv, &mut rng, i % 12, i);
+        let (banks, what) = make_event(&m, &inv, &mut rng, i % 15, i);
         let groups = {
             let mut g: Vec<&str> = banks.iter().filter(|b| b.0.starts_with("PC")).map(|b| &b.0[..]).collect();
             g.sort();
